@@ -916,3 +916,13 @@ func respellInts(src string) string {
 	}
 	return strings.Join(out, " ")
 }
+
+// safeNewCtx builds a context with the library's NewCtxFromVars; a panic in there is a violation of
+// the calling property's premise that contexts can be built at all (reported under its name).
+func safeNewCtx(pid string, cc *eval.Config, vals map[string]interface{}) (*eval.Ctx, *Violation) {
+	var ctx *eval.Ctx
+	if o := Safe(func() (eval.Value, error) { ctx = eval.NewCtxFromVars(cc, vals); return nil, nil }); o.Panic != nil {
+		return nil, Violf("%s: NewCtxFromVars panics: %v\nkey map=%v\nvalues=%v", pid, o, cc.VariableKeyMap, vals)
+	}
+	return ctx, nil
+}
